@@ -3,9 +3,11 @@
 # Prints the context summary (axioms of all loaded libraries, type-in-type, unsafe fixpoints, assumed positivity) per file.
 cd "$(dirname "$0")/../coq" || exit 2
 rc=0
+# by default vm_compute casts are replayed with the VM (as coqc does); COQCHK_NOVM=1 re-checks them by plain reduction (hours)
+VMOPT="-bytecode-compiler yes"; [ -n "$COQCHK_NOVM" ] && VMOPT=""
 for f in theories/Props/*.v; do
   mod="Typhon.Props.$(basename "$f" .v)"
   echo "== $mod"
-  if ! timeout "${COQCHK_TIMEOUT:-5400}" coqchk -silent -o -Q theories Typhon -Q gen TyphonGen "$mod" 2>&1 | sed -n '/CONTEXT SUMMARY/,$p'; then rc=1; fi
+  if ! timeout "${COQCHK_TIMEOUT:-5400}" coqchk -silent -o $VMOPT -Q theories Typhon -Q gen TyphonGen "$mod" 2>&1 | sed -n '/CONTEXT SUMMARY/,$p'; then rc=1; fi
 done
 exit $rc
